@@ -348,6 +348,17 @@ func rootAlsoAliased(st *State, ms *modSet, self types.Object, root types.Object
 	return false
 }
 
+func (fv *FV) withReveal(ls *LoopSpec, f func()) {
+	if ls == nil || len(ls.Reveal) == 0 {
+		f()
+		return
+	}
+	n := len(fv.reveal)
+	fv.reveal = append(fv.reveal, ls.Reveal...)
+	f()
+	fv.reveal = fv.reveal[:n]
+}
+
 func (fv *FV) loopSpec(s ast.Stmt) *LoopSpec {
 	ord := fv.loopOrd[s]
 	if ls := fv.fc.Loops[ord]; ls != nil {
@@ -471,7 +482,7 @@ func (fv *FV) execFor(st *State, x *ast.ForStmt, label string, ctl *Ctl, k Kont)
 			}
 		}
 		inner := ctl.with(label, k, endIter)
-		fv.execBlock(it, x.Body.List, inner, endIter)
+		fv.withReveal(ls, func() { fv.execBlock(it, x.Body.List, inner, endIter) })
 	}
 	if x.Init != nil {
 		fv.execStmt(st, x.Init, ctl, start)
@@ -564,7 +575,7 @@ func (fv *FV) execRange(st *State, x *ast.RangeStmt, label string, ctl *Ctl, k K
 			fv.checkInvs(s2, ls, bodyPos, "inv-preserved")
 		}
 		inner := ctl.with(label, k, endIter)
-		fv.execBlock(it, x.Body.List, inner, endIter)
+		fv.withReveal(ls, func() { fv.execBlock(it, x.Body.List, inner, endIter) })
 	case *types.Map:
 		var mpath *Path
 		if fv.isPathExpr(x.X) {
